@@ -1,9 +1,13 @@
 #!/bin/bash
 # tools/with_seed.sh <patch.diff> <Cxx> [Cyy ...] : apply a seeded change to /repo, run the quick checks, undo it.
+# Evidence and replay files of these runs go to a scratch directory (never into /verif/evidence).
 # Refuses to run when /repo has uncommitted changes to tracked files (they would be lost / mixed up).
 patch="$1"; shift
 if [ -n "$(git -C /repo status --porcelain --untracked-files=no)" ]; then echo "/repo has uncommitted tracked changes: commit them first"; exit 2; fi
-git -C /repo apply "$patch" || { echo "patch does not apply"; exit 2; }
-for p in "$@"; do (cd /verif && ./check "$p" quick 2>&1 | grep "failed obligation\|VIOLATION\|KNOWN\|quick:" | cut -c1-220); done
+scratch=$(mktemp -d /var/tmp/kvc-seedrun-XXXXXX)
+cp /verif/known_findings.json /verif/sweep_baseline.json "$scratch"/ 2>/dev/null
+git -C /repo apply "$patch" || { echo "patch does not apply"; rm -rf "$scratch"; exit 2; }
+for p in "$@"; do (cd /verif && ./bin/kvc check -property "$p" -tier quick -verif "$scratch" 2>&1 | grep "failed obligation\|VIOLATION\|KNOWN\|quick:" | cut -c1-220); done
 git -C /repo apply -R "$patch"
+rm -rf "$scratch"
 git -C /repo status --porcelain --untracked-files=no | head -3
